@@ -16,6 +16,10 @@ type GenCfg struct {
 	MaxMapEntries int
 	MaxListLen    int
 	Unknown       bool // allow unknown-field records
+	// AnyTargets: message types that google.protobuf.Any fields may pack (a
+	// resolvable type URL and a well-formed value carrying unknown records), so
+	// that library code which expands an Any decodes real payloads.
+	AnyTargets []protoreflect.MessageDescriptor
 }
 
 var int32Pool = []int64{0, 1, -1, 2, 127, 128, -128, -129, 255, 256, 16383, 16384, math.MaxInt32, math.MinInt32, math.MaxInt32 - 1, math.MinInt32 + 1, 1 << 30, -(1 << 30), 65536, -65536}
@@ -203,6 +207,23 @@ func Gen(t *simhook.Tape, md protoreflect.MessageDescriptor, cfg GenCfg) *dynami
 
 func gen(t *simhook.Tape, md protoreflect.MessageDescriptor, cfg GenCfg, depth int) *dynamicpb.Message {
 	m := dynamicpb.NewMessage(md)
+	if md.FullName() == "google.protobuf.Any" && len(cfg.AnyTargets) > 0 && t.Chance("valid-any", 2, 3) {
+		target := cfg.AnyTargets[t.Draw("any-target", len(cfg.AnyTargets))]
+		sub := cfg
+		sub.Unknown = true
+		sub.MaxFields = 3
+		if sub.MaxDepth > depth+1 {
+			sub.MaxDepth = depth + 1
+		}
+		payload := gen(t, target, sub, depth+1)
+		prefix := []string{"type.googleapis.com/", "/", "example.org/types/"}[t.Draw("any-prefix", 3)]
+		m.Set(md.Fields().ByName("type_url"), protoreflect.ValueOfString(prefix+string(target.FullName())))
+		val := (&EncodeOpts{T: t, Shuffle: true, Unknowns: true}).Encode(payload)
+		if len(val) > 0 {
+			m.Set(md.Fields().ByName("value"), protoreflect.ValueOfBytes(val))
+		}
+		return m
+	}
 	cl := classify(md)
 	if len(cl.all) == 0 {
 		return m
